@@ -5,3 +5,7 @@ unsigned long long g_next_rank;
 unsigned long long g_T, g_lastCalledRank;
 unsigned int g_c;
 int g_W_calls;
+/* snapshot ghosts: __CPROVER_old accepts lvalues only, so compound pre-state facts are bound to these by a
+ * `requires(g_bN == <pre-state expression>)` and read back in `ensures` (nothing assigns them) */
+_Bool g_b0, g_b1, g_b2, g_b3;
+unsigned long long g_u0, g_u1, g_u2, g_u3;
